@@ -561,6 +561,10 @@ def systematic_histories(tops):
                 out.append((a2, [op_on(x, (0, 0)), op_on(y, (0,))] + top_ops))
                 if y in REGION_TRANS:
                     out.append((b1, [op_on(x, (0,)), (y, ("range", (), 0, 1), {})] + top_ops))
+        # a second transformation applied to the loop INSIDE the directive created by the first one
+        for x in LOOP_TRANS:
+            for y in ALL_TRANS:
+                out.append((b1, [op_on(x, (0,)), op_on(y, (0, 0))] + top_ops))
         for x in LOOP_TRANS:
             for sk in (imp, imp_pre):
                 out.append((sk, [(x, ("node", (0,)), {"force": True, "collapse": 2})] + top_ops))
